@@ -52,23 +52,23 @@ Proof. exact cut_refines121. Qed.
 Print Assumptions C12_cut_refines.
 
 (* the same, with the loops calling the model of Index itself (C01_index_refines) instead of its specification *)
-Theorem C12_count_index_refines : forall p native cutover maxBruteForce maxLen primeRK s sub,
+Theorem C12_count_index_refines : forall p native cutover maxBruteForce maxLen primeRK nativeMax rtMaxLen, nativeMax <= rtMaxLen -> forall s sub,
   wf s -> wf sub -> (forall c, sub = [c] -> 128 <= c) ->
-  Count (Impl6.Index native cutover fold121 (lower_pkg p) fold_map121 fold_map_excl121 upper_lower121 maxBruteForce maxLen primeRK p) p s sub =
+  Count (Impl6.Index native cutover fold121 (lower_pkg p) fold_map121 fold_map_excl121 upper_lower121 maxBruteForce maxLen primeRK nativeMax rtMaxLen p) p s sub =
   Ok (count fold121 s sub).
 Proof. exact count_index_refines121. Qed.
 Print Assumptions C12_count_index_refines.
 
 (* Count on EVERY needle: a needle of one ASCII byte takes the accelerated byte count (its scalar
    definition; C13 ties the kernels to it) plus, for K k S s, the occurrences of U+212A / U+017F *)
-Theorem C12_count_full_refines : forall p native cutover maxBruteForce maxLen primeRK s sub, wf s -> wf sub ->
-  Count (Impl6.Index native cutover fold121 (lower_pkg p) fold_map121 fold_map_excl121 upper_lower121 maxBruteForce maxLen primeRK p) p s sub =
+Theorem C12_count_full_refines : forall p native cutover maxBruteForce maxLen primeRK nativeMax rtMaxLen, nativeMax <= rtMaxLen -> forall s sub, wf s -> wf sub ->
+  Count (Impl6.Index native cutover fold121 (lower_pkg p) fold_map121 fold_map_excl121 upper_lower121 maxBruteForce maxLen primeRK nativeMax rtMaxLen p) p s sub =
   Ok (count fold121 s sub).
 Proof. exact count_full_refines121. Qed.
 Print Assumptions C12_count_full_refines.
 
-Theorem C12_cut_index_refines : forall p native cutover maxBruteForce maxLen primeRK s sep, wf s -> wf sep ->
-  Cut (Impl6.Index native cutover fold121 (lower_pkg p) fold_map121 fold_map_excl121 upper_lower121 maxBruteForce maxLen primeRK p) p s sep =
+Theorem C12_cut_index_refines : forall p native cutover maxBruteForce maxLen primeRK nativeMax rtMaxLen, nativeMax <= rtMaxLen -> forall s sep, wf s -> wf sep ->
+  Cut (Impl6.Index native cutover fold121 (lower_pkg p) fold_map121 fold_map_excl121 upper_lower121 maxBruteForce maxLen primeRK nativeMax rtMaxLen p) p s sep =
   Ok (cut fold121 s sep).
 Proof. exact cut_index_refines121. Qed.
 Print Assumptions C12_cut_index_refines.
